@@ -11,13 +11,13 @@ git apply "$dst/patch.diff" && git apply "$dst/demo.diff" || { echo "diffs do no
 demo=$(python3 -c "import json;print(json.load(open('$dst/meta.json'))['demo_cmd'])")
 log="$dst/confirm.log"; : > "$log"
 echo "## suite with patch (+demo) at $(git -C /repo rev-parse --short HEAD)" >> "$log"
-flock /tmp/suite.lock cargo test --workspace --no-fail-fast --offline 2>&1 | grep -E "^test result|^test .* FAILED" >> "$log"
+flock /tmp/suite.lock timeout 1500 cargo test --workspace --no-fail-fast --offline 2>&1 | grep -E "^test result|^test .* FAILED" >> "$log"
 echo "## demo with patch: $demo" >> "$log"
 ( eval "$demo" 2>&1 | grep -E "^test result|^test .*(FAILED|ok)$" ) >> "$log"
 # load-flaky tests (10 ms socket timeouts, port binding): rerun every failing existing test alone, with the patch still applied
 for t in $(grep -E "^test .* FAILED" "$log" | awk '{print $2}' | sort -u); do
   for i in 1 2 3; do
-    if flock /tmp/suite.lock cargo test --workspace --offline "$t" 2>&1 | grep -qE "^test $t \.\.\. ok"; then echo "RERUN-OK $t" >> "$log"; break; fi
+    if flock /tmp/suite.lock timeout 600 cargo test --workspace --offline "$t" 2>&1 | grep -qE "^test $t \.\.\. ok"; then echo "RERUN-OK $t" >> "$log"; break; fi
   done
 done
 git apply -R "$dst/patch.diff" || { echo "cannot unapply" >> "$log"; exit 2; }
